@@ -223,23 +223,26 @@ def _generic_sink_events(sink) -> list:
     return out
 
 
-def parse_grouped(integration: str, data: bytes, frame_metadata=None, **kw) -> list:
-    """One entry per sink: (statements list, namespaces list, metadata seen while consuming)."""
-    inp = io.BytesIO(data)
-    out = []
+def iter_grouped(integration: str, data_or_file, frame_metadata=None, **kw):
+    """Generator, one item per sink as it is delivered: (statements, namespaces, metadata seen then)."""
+    inp = io.BytesIO(data_or_file) if isinstance(data_or_file, (bytes, bytearray)) else data_or_file
     if integration == "generic":
         it = gparse.parse_jelly_grouped(inp, frame_metadata=frame_metadata, **kw)
         for sink in it:
             meta = dict(frame_metadata.get()) if frame_metadata is not None else None
             evs = _generic_sink_events(sink)
-            out.append(([e for e in evs if e[0] == "stmt"], [e for e in evs if e[0] == "ns"], meta))
+            yield ([e for e in evs if e[0] == "stmt"], [e for e in evs if e[0] == "ns"], meta)
     else:
         it = rparse.parse_jelly_grouped(inp, frame_metadata=frame_metadata, **_rdflib_factories(kw))
         for store in it:
             meta = dict(frame_metadata.get()) if frame_metadata is not None else None
             sts = [("stmt", s) for s in T.rdflib_store_statements(store)]
-            out.append((sts, [("ns", p, str(u)) for p, u in store.namespaces()], meta))
-    return out
+            yield (sts, [("ns", p, str(u)) for p, u in store.namespaces()], meta)
+
+
+def parse_grouped(integration: str, data: bytes, frame_metadata=None, **kw) -> list:
+    """One entry per sink: (statements list, namespaces list, metadata seen while consuming)."""
+    return list(iter_grouped(integration, data, frame_metadata=frame_metadata, **kw))
 
 
 def run_flat_collect(integration: str, inp: Any, **kw) -> tuple[list, BaseException | None]:
